@@ -4,11 +4,23 @@
      module := tagging(E|I|A) ndefs def*
      def    := name tag ty
      tag    := "-" | class(u|a|c|p) number mode(d|i|e)   e.g. c5i
-     ty     := B | I | N | O | E n (name val|-)* | (S|T|C) n comp* x comp-list n comp* | Q ty | R name
-               where x = "-" (no extension marker) or the number of additions
-     comp   := name tag flag(m|o|d) ty
+     ty     := B | I | N | O | E n (name val|-)* | X n (name val|-)* n (name val|-)*
+             | (S|T|C) n comp* x comp-list n comp* | Q ty | R name
+               where x = "-" (no extension marker) or the number of additions;
+               X = ENUMERATED { root, ..., additions }
+     comp   := name tag flag(m|o|d) ty | K name          (K = COMPONENTS OF T<name>)
+   The tokens are parsed into the surface syntax of Fix/ComponentsOf.v; the model
+   is [xcheck] (= [check] after asn1c's expansion), the spec is evaluated on
+   X.680's expansion.
    Result line:
-     model=<ACCEPT|CRASH|REJECT:r1,r2..> fix=<OK|CRASH|r1,..> spec=<OK|c1,c2..> wf=<0|1> tagref=<0|1> choiceref=<0|1> enummixed=<0|1> *)
+     model=<ACCEPT|CRASH|OUTSIDE|REJECT:r1,r2..> fix=<OK|CRASH|NA|r1,..> spec=<OK|NA|c1,c2..> wf=<0|1>
+     tagref= choiceref= enummixed= cends=   (as before, on the expanded module)
+     cof=<none|ok|dangling|kind>  worst status of the COMPONENTS OF references (X.680 view)
+     cofdup=<0|1>  asn1c's expansion differs from X.680's by the identifiers it does not compare
+     cofext=<0|1>  ... by the extension markers/additions the clone drops in nested types
+     enumneg=<0|1> an extensible enumeration in X.680's order that asn1c's order check refuses
+     specc=<OK|NA|c1,..>  the spec's clauses evaluated on asn1c's expansion instead of X.680's (only used to
+                   tell which recorded finding explains a deviation) *)
 open Model
 open Drvlib
 
@@ -28,22 +40,30 @@ let parse_tag (s : string) : mtag option =
 
 let nat_s s = nat_of_int (int_of_string s)
 
-let rec parse_ty (toks : string list) : ty * string list =
+let rec parse_items k r acc =
+  if k = 0 then (List.rev acc, r)
+  else match r with
+    | name :: v :: r' ->
+        let v' = if v = "-" then None else Some (cz_of_string v) in
+        parse_items (k - 1) r' ((nat_s name, v') :: acc)
+    | _ -> raise (Bad "enum items")
+
+let rec parse_ty (toks : string list) : xty * string list =
   match toks with
-  | "B" :: r -> (TPrim PBool, r)
-  | "I" :: r -> (TPrim PInteger, r)
-  | "N" :: r -> (TPrim PNull, r)
-  | "O" :: r -> (TPrim POctets, r)
+  | "B" :: r -> (XPrim PBool, r)
+  | "I" :: r -> (XPrim PInteger, r)
+  | "N" :: r -> (XPrim PNull, r)
+  | "O" :: r -> (XPrim POctets, r)
   | "E" :: n :: r ->
-      let rec items k r acc =
-        if k = 0 then (List.rev acc, r)
-        else match r with
-          | name :: v :: r' ->
-              let v' = if v = "-" then None else Some (cz_of_string v) in
-              items (k - 1) r' ((nat_s name, v') :: acc)
-          | _ -> raise (Bad "enum items") in
-      let (its, r') = items (int_of_string n) r [] in
-      (TEnum its, r')
+      let (its, r') = parse_items (int_of_string n) r [] in
+      (XEnum (its, None), r')
+  | "X" :: n :: r ->
+      let (its, r') = parse_items (int_of_string n) r [] in
+      (match r' with
+       | n2 :: r'' ->
+           let (adds, r3) = parse_items (int_of_string n2) r'' [] in
+           (XEnum (its, Some adds), r3)
+       | _ -> raise (Bad "enum additions"))
   | ("S" | "T" | "C" as k) :: n :: r ->
       let kind = (match k with "S" -> KSeq | "T" -> KSet | _ -> KChoice) in
       let (r1, r) = parse_comps (int_of_string n) r in
@@ -55,25 +75,28 @@ let rec parse_ty (toks : string list) : ty * string list =
            (match r with
             | n2 :: r ->
                 let (r2, r) = parse_comps (int_of_string n2) r in
-                (TCons (kind, r1, ext, r2), r)
+                (XCons (kind, r1, ext, r2), r)
             | _ -> raise (Bad "r2"))
        | _ -> raise (Bad "ext"))
-  | "Q" :: r -> let (e, r') = parse_ty r in (TSeqOf e, r')
-  | "R" :: name :: r -> (TRef (nat_s name), r)
+  | "Q" :: r -> let (e, r') = parse_ty r in (XSeqOf e, r')
+  | "R" :: name :: r -> (XRef (nat_s name), r)
   | t :: _ -> raise (Bad ("type " ^ t))
   | [] -> raise (Bad "eof")
 
-and parse_comps (k : int) (toks : string list) : (cinfo * ty) list * string list =
+and parse_comps (k : int) (toks : string list) : (cinfo option * xty) list * string list =
   if k = 0 then ([], toks)
   else match toks with
+    | "K" :: name :: r ->
+        let (rest, r) = parse_comps (k - 1) r in
+        ((None, XRef (nat_s name)) :: rest, r)
     | name :: tag :: fl :: r ->
         let f = (match fl with "m" -> FMandatory | "o" -> FOptional | "d" -> FDefault | _ -> raise (Bad "flag")) in
         let (t, r) = parse_ty r in
         let (rest, r) = parse_comps (k - 1) r in
-        (({ c_name = nat_s name; c_tag = parse_tag tag; c_flag = f }, t) :: rest, r)
+        ((Some { c_name = nat_s name; c_tag = parse_tag tag; c_flag = f }, t) :: rest, r)
     | _ -> raise (Bad "comp")
 
-let parse_module (toks : string list) : module0 =
+let parse_module (toks : string list) : xmodule =
   match toks with
   | tg :: n :: r ->
       let tagging = (match tg with "E" -> TgExplicit | "I" -> TgImplicit | "A" -> TgAutomatic | _ -> raise (Bad "tagging")) in
@@ -82,9 +105,9 @@ let parse_module (toks : string list) : module0 =
         else match r with
           | name :: tag :: r ->
               let (t, r) = parse_ty r in
-              defs (k - 1) r ({ d_name = nat_s name; d_tag = parse_tag tag; d_ty = t } :: acc)
+              defs (k - 1) r ({ xd_name = nat_s name; xd_tag = parse_tag tag; xd_ty = t } :: acc)
           | _ -> raise (Bad "def") in
-      { m_tagging = tagging; m_defs = defs (int_of_string n) r [] }
+      { xm_tagging = tagging; xm_defs = defs (int_of_string n) r [] }
   | _ -> raise (Bad "module")
 
 let reason_s = function
@@ -97,18 +120,46 @@ let clause_s = function
 let uniq_sorted l = List.sort_uniq compare l
 let b01 b = if b then "1" else "0"
 
+let xreason_s = function
+  | XCore r -> reason_s r
+  | XEnumOrder -> "enumorder"
+
 let dispatch cmd args =
   match cmd with
   | "c11" ->
-      let m = parse_module args in
+      let xm = parse_module args in
       let rs l = String.concat "," (uniq_sorted (List.map reason_s l)) in
-      let model = (match check m with
-        | Accept -> "ACCEPT" | Crashes -> "CRASH" | Reject l -> "REJECT:" ^ rs l) in
-      let fix = (match fix_module m with
-        | NCrash -> "CRASH" | NOk [] -> "OK" | NOk l -> rs l) in
-      let spec = (match spec_bad m with
-        | [] -> "OK" | l -> String.concat "," (uniq_sorted (List.map clause_s l))) in
-      Some (Printf.sprintf "model=%s fix=%s spec=%s wf=%s tagref=%s choiceref=%s enummixed=%s cends=%s"
-              model fix spec (b01 (tagging_wfb m)) (b01 (has_tagref m)) (b01 (has_choiceref m))
-              (b01 (enum_mixed m)) (b01 (compile_ends m)))
+      let xrs l = String.concat "," (uniq_sorted (List.map xreason_s l)) in
+      let model = (match xcheck xm with
+        | XAccept -> "ACCEPT" | XCrashes -> "CRASH" | XOutside -> "OUTSIDE" | XReject l -> "REJECT:" ^ xrs l) in
+      let mc = expand_c xm in
+      let mx = expand_x680 xm in
+      let fix = (match mc with
+        | None -> "NA"
+        | Some m -> (match fix_module m with
+            | NCrash -> "CRASH"
+            | NOk l -> (match pre_reasons xm, l with
+                | [], [] -> "OK"
+                | p, l -> xrs (p @ List.map (fun r -> XCore r) l)))) in
+      let stats = cof_stats xm in
+      let cof =
+        if List.mem CofDangling stats then "dangling"
+        else if List.mem CofKind stats then "kind"
+        else if stats = [] then "none" else "ok" in
+      let spec = (match mx with
+        | None -> "NA"
+        | Some m -> (match spec_bad m with
+            | [] -> "OK" | l -> String.concat "," (uniq_sorted (List.map clause_s l)))) in
+      let specc = (match mc with
+        | None -> "NA"
+        | Some m -> (match spec_bad m with
+            | [] -> "OK" | l -> String.concat "," (uniq_sorted (List.map clause_s l)))) in
+      let onx f = (match mx with None -> false | Some m -> f m) in
+      let wf = onx tagging_wfb && xwf_written xm in
+      let cends = (match mc with None -> false | Some m -> compile_ends m) in
+      let cofdup = expand { p_rename = true; p_strip = false } xm <> mx in
+      let cofext = expand { p_rename = false; p_strip = true } xm <> mx in
+      Some (Printf.sprintf "model=%s fix=%s spec=%s wf=%s tagref=%s choiceref=%s enummixed=%s cends=%s cof=%s cofdup=%s cofext=%s enumneg=%s specc=%s"
+              model fix spec (b01 wf) (b01 (onx has_tagref)) (b01 (onx has_choiceref))
+              (b01 (onx enum_mixed)) (b01 cends) cof (b01 cofdup) (b01 cofext) (b01 (enum_ext_neg xm)) specc)
   | _ -> None
